@@ -253,9 +253,14 @@ func (sw *stressWorker) step() {
 		var a virtual.Attributes
 		sf.leaf.VirtualGetAttributes(ctx, attrMask, &a)
 	default:
-		// Another consumer of the cached digest.
+		// Another consumer of the cached digest. It holds no lock
+		// while it builds the node, so a panic in there can be
+		// recovered and reported without taking the run down.
 		p := &virtual.ApplyAppendOutputPathPersistencyDirectoryNode{Directory: &outputpathpersistency.Directory{}, Name: comp(sf.name)}
-		sf.leaf.VirtualApply(p)
+		panicked, msg := safely(func() { sf.leaf.VirtualApply(p) })
+		if panicked {
+			w.violate("persistency-node-panics-while-file-is-written", msg)
+		}
 	}
 }
 
